@@ -34,6 +34,9 @@ class LTen:
     def __init__(self, shape: V.Shape, elem, storage=None, ref=None, fresh=True):
         self.shape = shape
         self.elem = elem
+        # `owner`: this value was produced by an allocating primitive (its storage is referenced by nothing else);
+        # a view (storage passed explicitly) is never an owner
+        self.owner = storage is None and fresh
         self.storage = storage if storage is not None else z3.Int(f"stor!{id(self)}")
         self.fresh = fresh  # allocated by the code under contract in this call (not a view of something older)
         self.ref = ref
@@ -100,6 +103,8 @@ def lten_getattr(interp, t: LTen, name):
         return "cpu" if name == "device" else U("dtype_of_values", V.DtypeS)
     if name == "clone":
         return m(lambda interp: LTen(t.shape, t.elem, fresh=True))
+    if name == "_is_view":
+        return m(lambda interp: not t.owner)
     if name in ("detach", "contiguous"):
         return m(lambda interp: LTen(t.shape, t.elem, storage=t.storage, fresh=t.fresh))
     if name in ("reshape", "view"):
@@ -429,7 +434,8 @@ class Heap:
         self.has_f = lambda x: z3.If(x == r, True, hv(x))
         self.val_f = lambda x, c: z3.If(x == r, v.elem([c]), vv(x, c))
         self.stor_f = lambda x: z3.If(x == r, new_stor, sv(x))
-        cx.event("grad_store", ref=r, fresh=v.fresh, inplace=getattr(v, "inplace_of", None) is not None, storage=new_stor)
+        cx.event("grad_store", ref=r, fresh=v.fresh, owner=v.owner, inplace=getattr(v, "inplace_of", None) is not None,
+                 storage=new_stor, value=v, pc_len=len(cx.pc))
 
     def havoc(self, cx, name="Hh"):
         h = Heap(cx, name)
